@@ -38,7 +38,8 @@ CLAIMED = {
         text="Bounded symbolic model checking of write_dump_header -> read_lammps_wrapper, the molecule-centre reader, the "
              "column readers and the HOOMD frame converters on symbolic numerals / duck-typed frames; all values symbolic, "
              "type maps and column lists enumerated.",
-        note="read_lammpslog is not covered (pandas C parser, no numeric input); 'to written precision' is the identity in the "
+        note="read_lammpslog: only the section structure is symbolic (row counts 1..3 per section, forked by the engine), the numbers "
+             "are concrete because they pass through pandas' C parser; 'to written precision' is the identity in the "
              "symbolic run and 2e-6 in concrete replays; gsd/mdtraj file parsers are replaced by duck-typed frames.",
         ref="DESIGN.md C19"),
     "C05": dict(
